@@ -1,13 +1,14 @@
 #!/bin/bash
 # tools/evalbenign.sh <dir-with-patch.diff> [checks...]: apply a behaviour-preserving change in a
 # scratch worktree and run the quick checks against it; any exit 1 is a false alarm of ours.
+# SKIPSUITE=1 skips the repository's own suite (for re-runs of changes validated before).
 D="$1"; shift
 CHECKS="${*:-C01 C02 C03 C04 C05 C06 C07 C08 C09 C16 C17 C18 C19 C20}"
 export GOFLAGS=-mod=mod GOPROXY=off GOSUMDB=off GOTOOLCHAIN=local
 WT=$(mktemp -d /tmp/evalben.XXXXXX); rmdir $WT
 git -C /repo worktree add -q $WT HEAD || exit 2
 ( cd $WT && git apply "$D/patch.diff" ) || { echo "$D: PATCH-DOES-NOT-APPLY"; git -C /repo worktree remove --force $WT; exit 2; }
-( cd $WT && go build ./... && go test -count=1 . >/dev/null 2>&1 ) || { echo "$D: SUITE-FAILS"; git -C /repo worktree remove --force $WT; exit 2; }
+( cd $WT && go build ./... && { [ "${SKIPSUITE:-0}" = 1 ] || go test -count=1 . >/dev/null 2>&1; } ) || { echo "$D: SUITE-FAILS"; git -C /repo worktree remove --force $WT; exit 2; }
 res=""
 for c in $CHECKS; do
   out=$(/verif/bin/check-at $WT $c quick 2>&1); rc=$?
